@@ -140,6 +140,7 @@ pub fn run_fault(
         opts: plan.opts.clone(),
         wd: Arc::clone(wd),
         scan_limit: 10_000,
+        walk_rng: None,
     };
     let mut status = "ok".to_string();
     let mut errors_seen = 0;
